@@ -12,6 +12,8 @@ import (
 	"os"
 	"path/filepath"
 	"strings"
+	"sync"
+	"sync/atomic"
 	"time"
 
 	zmq "github.com/pebbe/zmq4"
@@ -143,6 +145,10 @@ func VerifC13Main() {
 	if a.Replay != "" {
 		name = vh.LoadReplay(a.Replay)["scenario"].(string)
 	}
+	if name == "race" {
+		c13Race(a, fa, fb, met)
+		return
+	}
 	parts := strings.Split(name, "/")
 	if len(parts) != 2 {
 		vh.Fatal("bad scenario %q", name)
@@ -268,4 +274,45 @@ func VerifC13Main() {
 	vh.SelfCheck(name, mk)
 	res := vsched.Explore(vsched.Config{Name: name, PreemptBound: -1, EnvBound: -1, Deadline: a.Deadline(), Prune: true}, mk)
 	vh.Emit(vh.FromSched(res))
+}
+
+// c13Race: free-running companion for the race detector (regprocessor.go not rewritten): four request
+// goroutines (dual-stack, v4, v6, dual-stack) x 5 requests next to two reload goroutines x 3 reloads.
+func c13Race(a *vh.Args, fa, fb string, met *metrics.Metrics) {
+	t0 := time.Now()
+	var n int64
+	for time.Since(t0) < a.Budget/4 {
+		os.Setenv("PHANTOM_SUBNET_LOCATION", fa)
+		sel, err := phantoms.GetPhantomSubnetSelector()
+		if err != nil {
+			vh.Fatal("selector: %v", err)
+		}
+		p := &RegProcessor{ipSelector: sel, sock: &c13Sender{}, metrics: met, authenticated: false, regOverrides: nil}
+		_ = p.AddTransport(pb.TransportType_Min, min.Transport{})
+		var wg sync.WaitGroup
+		for i, k := range []string{"d", "4", "6", "d"} {
+			i, k := i, k
+			wg.Add(1)
+			go func() {
+				defer wg.Done()
+				for r := 0; r < 5; r++ {
+					_, _ = p.RegisterBidirectional(c13Wrapper(k, i*8+r), pb.RegistrationSource_BidirectionalAPI, []byte{192, 0, 2, 1})
+					atomic.AddInt64(&n, 1)
+				}
+			}()
+		}
+		for j := 0; j < 2; j++ {
+			wg.Add(1)
+			go func() {
+				defer wg.Done()
+				for r := 0; r < 3; r++ {
+					_ = p.ReloadSubnets()
+					atomic.AddInt64(&n, 1)
+				}
+			}()
+		}
+		wg.Wait()
+	}
+	vh.Emit(&vh.Out{Name: "race", Evaluations: n, Traces: n, Exhaustive: false, Cap: "free-running sample of schedules under the race detector (adjunct)", WallS: time.Since(t0).Seconds(),
+		Samples: []any{map[string]any{"iteration": "4 goroutines x 5 RegisterBidirectional (d,4,6,d) + 2 goroutines x 3 ReloadSubnets"}}})
 }
